@@ -62,6 +62,8 @@ type interpreter struct {
 	store         map[string]value // engine-side per-path storage for stubs
 	depth         int
 	ex            *Explorer
+	hashInputs    []hashRec
+	scopes        []int
 }
 
 type deferred struct {
